@@ -135,57 +135,18 @@ TypeDefProd(t, code, dev, afterDesc) ==
 
 ProdExec(X, t, dev) ==
   CASE
-       X = "SelRest"   -> IF IsP(t, "}") THEN <<T("}", "}sel")>> ELSE <<NT("Selection"), NT("SelRest")>>
-    \* Field : Alias? Name Arguments? Directives? SelectionSet?     (Alias : Name `:`)
-    [] X = "Selection" ->
-         CASE IsName(t) -> <<NM("", "field"), NT("AliasOpt"), NT("ArgsOpt"), NT("DirsOpt"), NT("SelSetOpt")>>
-           [] IsP(t, "...") -> <<T("...", ""), NT("FragTail")>>
-           [] OTHER -> <<FAIL>>
-    [] X = "AliasOpt" -> IF IsP(t, ":") THEN <<T(":", ""), NM("", "realias")>> ELSE <<>>
-    [] X = "ArgsOpt"  -> IF IsP(t, "(") THEN <<T("(", ""), NT("Arg"), NT("ArgRest")>> ELSE <<>>
-    [] X = "DirsOpt"  -> IF IsP(t, "@") THEN DirBody("ArgsOpt") \o <<NT("DirsOpt")>> ELSE <<>>
-    [] X = "SelSetOpt" -> IF IsP(t, "{") THEN SelSetBody("sel{") ELSE <<>>
+  \* ---------------- executable documents (2.2 Document .. 2.12 Directives); types, values, directives ----------------
+       X = "Doc"     -> <<NT("Def"), NT("DocRest")>>
     [] X = "DocRest" -> IF t.k = "eof" THEN <<>> ELSE <<NT("Def"), NT("DocRest")>>
     [] X = "Def" ->
          CASE IsP(t, "{") -> SelSetBody("defop{")
            [] IsName(t) /\ t.s \in OpTypes -> <<KW(t.s, "defop"), NT("OpNameOpt"), NT("VarDefsOpt"), NT("DirsOpt"), NT("SelSet")>>
            [] IsKw(t, "fragment") -> <<KW("fragment", "def"), NM("noton", "frag"), KW("on", ""), <<"nc", "frag", "on">>, NT("DirsOpt"), NT("SelSet")>>
            [] OTHER -> <<FAIL>>
-    [] X = "Value"    -> ValueProd(t, "", dev)
-    [] X = "ArgRest"  -> IF IsP(t, ")") THEN <<T(")", "")>> ELSE <<NT("Arg"), NT("ArgRest")>>
-    [] X = "Arg"      -> IF IsName(t) THEN <<NM("", "arg"), T(":", ""), NT("Value")>> ELSE <<FAIL>>
-    \* FragmentSpread : ... FragmentName Directives?   (FragmentName : Name but not `on`)
-    \* InlineFragment : ... TypeCondition? Directives? SelectionSet
-    [] X = "FragTail" ->
-         CASE IsKw(t, "on") -> IF "DevFragmentNameOn" \in dev \/ "DevTypeCondAtomic" \in dev
-                               THEN <<KW("on", "inline"), NT("AfterOnDev")>>
-                               ELSE <<KW("on", "inline"), NM("", "on"), NT("DirsOpt"), NT("SelSet")>>
-           [] IsName(t) -> <<NM("", "spread"), NT("DirsOpt")>>
-           [] IsP(t, "@") -> <<T("@", "inline"), NM("", "dir"), NT("ArgsOpt"), NT("DirsOpt"), NT("SelSet")>>
-           [] IsP(t, "{") -> SelSetBody("inline{")
-           [] OTHER -> <<FAIL>>
-    [] X = "SelSet"    -> IF IsP(t, "{") THEN SelSetBody("sel{") ELSE <<FAIL>>
     [] X = "OpNameOpt" -> IF IsName(t) THEN <<NM("", "opname")>> ELSE <<>>
     [] X = "VarDefsOpt" ->
          IF IsP(t, "(") THEN (IF "DevEmptyVarDefs" \in dev THEN <<T("(", ""), NT("VarDefRest0")>> ELSE <<T("(", ""), NT("VarDef"), NT("VarDefRest")>>)
          ELSE <<>>
-    [] X = "ListRest"  -> IF IsP(t, "]") THEN <<T("]", "]")>> ELSE <<NT("Value"), NT("ListRest")>>
-    [] X = "ObjRest"   -> IF IsP(t, "}") THEN <<T("}", "}")>> ELSE IF IsName(t) THEN <<NM("", "key"), T(":", ""), NT("Value"), NT("ObjRest")>> ELSE <<FAIL>>
-    [] X = "Type" ->
-         CASE IsName(t) -> <<NM("", "named"), NT("BangOpt")>>
-           [] IsP(t, "[") -> <<T("[", "list"), NT("TypeIn"), TG("]", "endlist"), NT("BangOpt")>>
-           [] OTHER -> <<FAIL>>
-    [] X = "TypeIn" ->
-         CASE IsName(t) -> <<<<"ng", "", "named">>, NT("BangOpt")>>
-           [] IsP(t, "[") -> <<TG("[", "list"), NT("TypeIn"), TG("]", "endlist"), NT("BangOpt")>>
-           [] OTHER -> <<FAIL>>
-    [] X = "BangOpt" -> IF IsP(t, "!") THEN <<TG("!", "nonnull")>> ELSE <<>>
-    [] X = "CDirsOpt" -> IF IsP(t, "@") THEN DirBody("CArgsOpt") \o <<NT("CDirsOpt")>> ELSE <<>>
-    [] X = "CArgsOpt" -> IF IsP(t, "(") THEN <<T("(", ""), NT("CArg"), NT("CArgRest")>> ELSE <<>>
-    [] X = "CValue"   -> ValueProd(t, "C", dev)
-    [] X = "DefaultOpt" -> IF IsP(t, "=") THEN <<T("=", "default"), NT("CValue")>> ELSE <<>>
-  \* ---------------- executable documents (2.2 Document .. 2.12 Directives) ----------------
-    [] X = "Doc"     -> <<NT("Def"), NT("DocRest")>>
     [] X = "VarDefRest0" -> IF IsP(t, ")") THEN <<DUSE("DevEmptyVarDefs"), T(")", "")>> ELSE <<NT("VarDef"), NT("VarDefRest")>>
     [] X = "VarDefRest" -> IF IsP(t, ")") THEN <<T(")", "")>> ELSE <<NT("VarDef"), NT("VarDefRest")>>
     \* VariableDefinition : Variable : Type DefaultValue? Directives[Const]?
@@ -203,7 +164,23 @@ ProdExec(X, t, dev) ==
     [] X = "VDLateDefault" ->  \* today: `$a: Int @d = 1` is accepted and `$a: Int = 1 @d` is not
          IF IsP(t, "=") THEN (IF "DevVarDefOrder" \in dev THEN <<DUSE("DevVarDefOrder"), ACT("default-before-dirs"), T("=", ""), NT("CValue"), ACT("default-done")>> ELSE <<FAIL>>)
          ELSE <<>>
+    [] X = "Type" ->
+         CASE IsName(t) -> <<NM("", "named"), NT("BangOpt")>>
+           [] IsP(t, "[") -> <<T("[", "list"), NT("TypeIn"), TG("]", "endlist"), NT("BangOpt")>>
+           [] OTHER -> <<FAIL>>
+    [] X = "TypeIn" ->
+         CASE IsName(t) -> <<<<"ng", "", "named">>, NT("BangOpt")>>
+           [] IsP(t, "[") -> <<TG("[", "list"), NT("TypeIn"), TG("]", "endlist"), NT("BangOpt")>>
+           [] OTHER -> <<FAIL>>
+    [] X = "BangOpt" -> IF IsP(t, "!") THEN <<TG("!", "nonnull")>> ELSE <<>>
+    [] X = "DefaultOpt" -> IF IsP(t, "=") THEN <<T("=", "default"), NT("CValue")>> ELSE <<>>
+    [] X = "DirsOpt"  -> IF IsP(t, "@") THEN DirBody("ArgsOpt") \o <<NT("DirsOpt")>> ELSE <<>>
+    [] X = "CDirsOpt" -> IF IsP(t, "@") THEN DirBody("CArgsOpt") \o <<NT("CDirsOpt")>> ELSE <<>>
     [] X = "CDirs1"   -> IF IsP(t, "@") THEN DirBody("CArgsOpt") \o <<NT("CDirsOpt")>> ELSE <<FAIL>>
+    [] X = "ArgsOpt"  -> IF IsP(t, "(") THEN <<T("(", ""), NT("Arg"), NT("ArgRest")>> ELSE <<>>
+    [] X = "ArgRest"  -> IF IsP(t, ")") THEN <<T(")", "")>> ELSE <<NT("Arg"), NT("ArgRest")>>
+    [] X = "Arg"      -> IF IsName(t) THEN <<NM("", "arg"), T(":", ""), NT("Value")>> ELSE <<FAIL>>
+    [] X = "CArgsOpt" -> IF IsP(t, "(") THEN <<T("(", ""), NT("CArg"), NT("CArgRest")>> ELSE <<>>
     [] X = "CArgRest" -> IF IsP(t, ")") THEN <<T(")", "")>> ELSE <<NT("CArg"), NT("CArgRest")>>
     [] X = "CArg"     -> IF IsName(t) THEN <<NM("", "arg"), T(":", ""), NT("CValue")>> ELSE <<FAIL>>
     \* today's variable-definition directives take non-constant arguments
@@ -216,8 +193,31 @@ ProdExec(X, t, dev) ==
                          ELSE ValueProd(t, "C", dev)
     [] X = "VListRest" -> IF IsP(t, "]") THEN <<T("]", "]")>> ELSE <<NT("ValueV"), NT("VListRest")>>
     [] X = "VObjRest"  -> IF IsP(t, "}") THEN <<T("}", "}")>> ELSE IF IsName(t) THEN <<NM("", "key"), T(":", ""), NT("ValueV"), NT("VObjRest")>> ELSE <<FAIL>>
+    [] X = "Value"    -> ValueProd(t, "", dev)
+    [] X = "CValue"   -> ValueProd(t, "C", dev)
+    [] X = "ListRest"  -> IF IsP(t, "]") THEN <<T("]", "]")>> ELSE <<NT("Value"), NT("ListRest")>>
     [] X = "CListRest" -> IF IsP(t, "]") THEN <<T("]", "]")>> ELSE <<NT("CValue"), NT("CListRest")>>
+    [] X = "ObjRest"   -> IF IsP(t, "}") THEN <<T("}", "}")>> ELSE IF IsName(t) THEN <<NM("", "key"), T(":", ""), NT("Value"), NT("ObjRest")>> ELSE <<FAIL>>
     [] X = "CObjRest"  -> IF IsP(t, "}") THEN <<T("}", "}")>> ELSE IF IsName(t) THEN <<NM("", "key"), T(":", ""), NT("CValue"), NT("CObjRest")>> ELSE <<FAIL>>
+    [] X = "SelSet"    -> IF IsP(t, "{") THEN SelSetBody("sel{") ELSE <<FAIL>>
+    [] X = "SelSetOpt" -> IF IsP(t, "{") THEN SelSetBody("sel{") ELSE <<>>
+    [] X = "SelRest"   -> IF IsP(t, "}") THEN <<T("}", "}sel")>> ELSE <<NT("Selection"), NT("SelRest")>>
+    \* Field : Alias? Name Arguments? Directives? SelectionSet?     (Alias : Name `:`)
+    [] X = "Selection" ->
+         CASE IsName(t) -> <<NM("", "field"), NT("AliasOpt"), NT("ArgsOpt"), NT("DirsOpt"), NT("SelSetOpt")>>
+           [] IsP(t, "...") -> <<T("...", ""), NT("FragTail")>>
+           [] OTHER -> <<FAIL>>
+    [] X = "AliasOpt" -> IF IsP(t, ":") THEN <<T(":", ""), NM("", "realias")>> ELSE <<>>
+    \* FragmentSpread : ... FragmentName Directives?   (FragmentName : Name but not `on`)
+    \* InlineFragment : ... TypeCondition? Directives? SelectionSet
+    [] X = "FragTail" ->
+         CASE IsKw(t, "on") -> IF "DevFragmentNameOn" \in dev \/ "DevTypeCondAtomic" \in dev
+                               THEN <<KW("on", "inline"), NT("AfterOnDev")>>
+                               ELSE <<KW("on", "inline"), NM("", "on"), NT("DirsOpt"), NT("SelSet")>>
+           [] IsName(t) -> <<NM("", "spread"), NT("DirsOpt")>>
+           [] IsP(t, "@") -> <<T("@", "inline"), NM("", "dir"), NT("ArgsOpt"), NT("DirsOpt"), NT("SelSet")>>
+           [] IsP(t, "{") -> SelSetBody("inline{")
+           [] OTHER -> <<FAIL>>
     \* today: type_condition = ${ "on" ~ WHITESPACE+ ~ name }; when it does not match, `on` is a fragment name
     [] X = "AfterOnDev" ->
          IF IsName(t) /\ ~(t.g = "c" /\ "DevTypeCondAtomic" \in dev) THEN <<NM("", "on"), NT("DirsOpt"), NT("SelSet")>>
@@ -227,43 +227,13 @@ ProdExec(X, t, dev) ==
 
 ProdSdl(X, t, dev) ==
   CASE
-       X = "SDocRest" -> IF t.k = "eof" THEN <<>> ELSE <<NT("SDef"), NT("SDocRest")>>
+  \* ---------------- type-system documents (3 Type System, 3.3 .. 3.13) ----------------
+       X = "SDoc"     -> <<NT("SDef"), NT("SDocRest")>>
+    [] X = "SDocRest" -> IF t.k = "eof" THEN <<>> ELSE <<NT("SDef"), NT("SDocRest")>>
     [] X = "SDef" ->
          CASE IsStr(t) -> <<<<"lit", "str", "defdesc">>, NT("SDefAfterDesc")>>
            [] IsKw(t, "extend") -> <<KW("extend", "defextend"), NT("SExt")>>
            [] OTHER -> TypeDefProd(t, "defkind", dev, FALSE)
-    [] X = "FieldDefRest" -> IF IsP(t, "}") THEN <<T("}", "}fields")>> ELSE <<NT("FieldDef"), NT("FieldDefRest")>>
-    [] X = "FieldDef" ->
-         IF IsStr(t) THEN <<<<"lit", "str", "desc">>, NT("FieldDef1")>>
-         ELSE IF IsName(t) THEN <<NM("", "fdef"), NT("ArgDefsOpt"), T(":", ""), NT("Type"), NT("CDirsOpt")>> ELSE <<FAIL>>
-    [] X = "ArgDefsOpt" -> IF IsP(t, "(") THEN <<T("(", "args("), NT("IVDef"), NT("IVRestParen")>> ELSE <<>>
-    [] X = "ImplOpt"  -> IF IsKw(t, "implements") THEN ImplBody ELSE <<>>
-    [] X = "FieldsOpt" -> IF IsP(t, "{") THEN FieldsBody ELSE <<>>
-    [] X = "MembersOpt" -> IF IsP(t, "=") THEN MembersBody ELSE <<>>
-    [] X = "MemberRest" -> IF IsP(t, "|") THEN <<T("|", ""), NM("", "member"), NT("MemberRest")>> ELSE <<>>
-    [] X = "EnumValsOpt" -> IF IsP(t, "{") THEN EnumValsBody ELSE <<>>
-    [] X = "EnumValRest" -> IF IsP(t, "}") THEN <<T("}", "}values")>> ELSE <<NT("EnumVal"), NT("EnumValRest")>>
-    \* EnumValue : Name but not true, false or null
-    [] X = "EnumVal" ->
-         IF IsStr(t) THEN <<<<"lit", "str", "desc">>, NM("nottfn", "evalue"), NT("CDirsOpt")>>
-         ELSE IF IsName(t) THEN <<NM("nottfn", "evalue"), NT("CDirsOpt")>> ELSE <<FAIL>>
-    [] X = "InFieldsOpt" -> IF IsP(t, "{") THEN InFieldsBody ELSE <<>>
-    [] X = "IVRestBrace" -> IF IsP(t, "}") THEN <<T("}", "}infields")>> ELSE <<NT("IVDef"), NT("IVRestBrace")>>
-    [] X = "IVRestParen" -> IF IsP(t, ")") THEN <<T(")", ")args")>> ELSE <<NT("IVDef"), NT("IVRestParen")>>
-    [] X = "IVDef" ->
-         IF IsStr(t) THEN <<<<"lit", "str", "desc">>, NT("IVDef1")>>
-         ELSE IF IsName(t) THEN <<NM("", "ivdef"), T(":", ""), NT("Type"), NT("DefaultOpt"), NT("CDirsOpt")>> ELSE <<FAIL>>
-    [] X = "ImplRest" -> IF IsP(t, "&") THEN <<T("&", ""), NM("", "impl"), NT("ImplRest")>> ELSE <<>>
-    [] X = "AmpOpt"   -> IF IsP(t, "&") THEN <<T("&", "")>> ELSE <<>>
-    [] X = "BarOpt"     -> IF IsP(t, "|") THEN <<T("|", "")>> ELSE <<>>
-    [] X = "LocRest" -> IF IsP(t, "|") THEN <<T("|", ""), NM("loc", "loc"), NT("LocRest")>> ELSE <<>>
-    [] X = "RepeatableOpt" -> IF IsKw(t, "repeatable") THEN <<KW("repeatable", "repeatable")>> ELSE <<>>
-    [] X = "RootRest" -> IF IsP(t, "}") THEN <<T("}", "")>> ELSE <<NT("RootDef"), NT("RootRest")>>
-    [] X = "RootDef" -> IF IsName(t) /\ t.s \in OpTypes
-                        THEN <<KW(t.s, ""), T(":", ""), NM("", CASE t.s = "query" -> "rootq" [] t.s = "mutation" -> "rootm" [] OTHER -> "roots")>>
-                        ELSE <<FAIL>>
-  \* ---------------- type-system documents (3 Type System, 3.3 .. 3.13) ----------------
-    [] X = "SDoc"     -> <<NT("SDef"), NT("SDocRest")>>
     [] X = "SDefAfterDesc" -> TypeDefProd(t, "kind", dev, TRUE)
     [] X = "SExt" ->
          CASE IsKw(t, "schema") -> <<KW("schema", "kind"), NT("ExtSchemaTail")>>
@@ -276,6 +246,10 @@ ProdSdl(X, t, dev) ==
            [] OTHER -> <<FAIL>>
     [] X = "ExtSchemaTail" -> IF IsP(t, "@") THEN <<NT("CDirs1"), NT("RootBlockOpt")>> ELSE IF IsP(t, "{") THEN RootBlock ELSE <<FAIL>>
     [] X = "RootBlockOpt"  -> IF IsP(t, "{") THEN RootBlock ELSE <<>>
+    [] X = "RootDef" -> IF IsName(t) /\ t.s \in OpTypes
+                        THEN <<KW(t.s, ""), T(":", ""), NM("", CASE t.s = "query" -> "rootq" [] t.s = "mutation" -> "rootm" [] OTHER -> "roots")>>
+                        ELSE <<FAIL>>
+    [] X = "RootRest" -> IF IsP(t, "}") THEN <<T("}", "")>> ELSE <<NT("RootDef"), NT("RootRest")>>
     \* ObjectTypeExtension / InterfaceTypeExtension: at least one of implements / directives / fields
     [] X = "ExtObjTail" ->
          CASE IsKw(t, "implements") -> ImplBody \o <<NT("ExtObjTail2")>>
@@ -298,10 +272,40 @@ ProdSdl(X, t, dev) ==
     [] X = "ExtUnionTail" -> IF IsP(t, "@") THEN <<NT("CDirs1"), NT("MembersOpt")>> ELSE IF IsP(t, "=") THEN MembersBody ELSE <<FAIL>>
     [] X = "ExtEnumTail"  -> IF IsP(t, "@") THEN <<NT("CDirs1"), NT("EnumValsOpt")>> ELSE IF IsP(t, "{") THEN EnumValsBody ELSE <<FAIL>>
     [] X = "ExtInTail"    -> IF IsP(t, "@") THEN <<NT("CDirs1"), NT("InFieldsOpt")>> ELSE IF IsP(t, "{") THEN InFieldsBody ELSE <<FAIL>>
+    [] X = "ImplOpt"  -> IF IsKw(t, "implements") THEN ImplBody ELSE <<>>
+    [] X = "AmpOpt"   -> IF IsP(t, "&") THEN <<T("&", "")>> ELSE <<>>
+    [] X = "ImplRest" -> IF IsP(t, "&") THEN <<T("&", ""), NM("", "impl"), NT("ImplRest")>> ELSE <<>>
+    [] X = "FieldsOpt" -> IF IsP(t, "{") THEN FieldsBody ELSE <<>>
+    [] X = "FieldDef" ->
+         IF IsStr(t) THEN <<<<"lit", "str", "desc">>, NT("FieldDef1")>>
+         ELSE IF IsName(t) THEN <<NM("", "fdef"), NT("ArgDefsOpt"), T(":", ""), NT("Type"), NT("CDirsOpt")>> ELSE <<FAIL>>
     [] X = "FieldDef1" -> IF IsName(t) THEN <<NM("", "fdef"), NT("ArgDefsOpt"), T(":", ""), NT("Type"), NT("CDirsOpt")>> ELSE <<FAIL>>
+    [] X = "FieldDefRest" -> IF IsP(t, "}") THEN <<T("}", "}fields")>> ELSE <<NT("FieldDef"), NT("FieldDefRest")>>
+    [] X = "ArgDefsOpt" -> IF IsP(t, "(") THEN <<T("(", "args("), NT("IVDef"), NT("IVRestParen")>> ELSE <<>>
+    [] X = "IVDef" ->
+         IF IsStr(t) THEN <<<<"lit", "str", "desc">>, NT("IVDef1")>>
+         ELSE IF IsName(t) THEN <<NM("", "ivdef"), T(":", ""), NT("Type"), NT("DefaultOpt"), NT("CDirsOpt")>> ELSE <<FAIL>>
     [] X = "IVDef1" -> IF IsName(t) THEN <<NM("", "ivdef"), T(":", ""), NT("Type"), NT("DefaultOpt"), NT("CDirsOpt")>> ELSE <<FAIL>>
+    [] X = "IVRestParen" -> IF IsP(t, ")") THEN <<T(")", ")args")>> ELSE <<NT("IVDef"), NT("IVRestParen")>>
+    [] X = "IVRestBrace" -> IF IsP(t, "}") THEN <<T("}", "}infields")>> ELSE <<NT("IVDef"), NT("IVRestBrace")>>
+    [] X = "MembersOpt" -> IF IsP(t, "=") THEN MembersBody ELSE <<>>
+    [] X = "BarOpt"     -> IF IsP(t, "|") THEN <<T("|", "")>> ELSE <<>>
+    [] X = "MemberRest" -> IF IsP(t, "|") THEN <<T("|", ""), NM("", "member"), NT("MemberRest")>> ELSE <<>>
+    [] X = "EnumValsOpt" -> IF IsP(t, "{") THEN EnumValsBody ELSE <<>>
+    \* EnumValue : Name but not true, false or null
+    [] X = "EnumVal" ->
+         IF IsStr(t) THEN <<<<"lit", "str", "desc">>, NM("nottfn", "evalue"), NT("CDirsOpt")>>
+         ELSE IF IsName(t) THEN <<NM("nottfn", "evalue"), NT("CDirsOpt")>> ELSE <<FAIL>>
+    [] X = "EnumValRest" -> IF IsP(t, "}") THEN <<T("}", "}values")>> ELSE <<NT("EnumVal"), NT("EnumValRest")>>
+    [] X = "InFieldsOpt" -> IF IsP(t, "{") THEN InFieldsBody ELSE <<>>
+    [] X = "RepeatableOpt" -> IF IsKw(t, "repeatable") THEN <<KW("repeatable", "repeatable")>> ELSE <<>>
+    [] X = "LocRest" -> IF IsP(t, "|") THEN <<T("|", ""), NM("loc", "loc"), NT("LocRest")>> ELSE <<>>
 
-ExecNT == {"Doc", "DocRest", "Def", "OpNameOpt", "VarDefsOpt", "VarDefRest0", "VarDefRest", "VarDef", "VDTail", "VDDirs", "VDNoDirs", "VDLateDefault", "Type", "TypeIn", "BangOpt", "DefaultOpt", "DirsOpt", "CDirsOpt", "CDirs1", "ArgsOpt", "ArgRest", "Arg", "CArgsOpt", "CArgRest", "CArg", "ArgsOptV", "ArgRestV", "ArgV", "ValueV", "VListRest", "VObjRest", "Value", "CValue", "ListRest", "CListRest", "ObjRest", "CObjRest", "SelSet", "SelSetOpt", "SelRest", "Selection", "AliasOpt", "FragTail", "AfterOnDev"}
+ExecNT == {"Doc", "DocRest", "Def", "OpNameOpt", "VarDefsOpt", "VarDefRest0", "VarDefRest", "VarDef", "VDTail", 
+           "VDDirs", "VDNoDirs", "VDLateDefault", "Type", "TypeIn", "BangOpt", "DefaultOpt", "DirsOpt", "CDirsOpt", 
+           "CDirs1", "ArgsOpt", "ArgRest", "Arg", "CArgsOpt", "CArgRest", "CArg", "ArgsOptV", "ArgRestV", "ArgV", 
+           "ValueV", "VListRest", "VObjRest", "Value", "CValue", "ListRest", "CListRest", "ObjRest", "CObjRest", 
+           "SelSet", "SelSetOpt", "SelRest", "Selection", "AliasOpt", "FragTail", "AfterOnDev"}
 \* nonterminals shared by both grammars (types, constant values, constant directives) are in ProdExec
 Prod(X, t, dev) == IF X \in ExecNT THEN ProdExec(X, t, dev) ELSE ProdSdl(X, t, dev)
 
@@ -463,14 +467,43 @@ NeedsSep(a, b) ==
   \/ a.k \in {"i", "f"} /\ IsP(b, "...")
   \/ IsStr(a) /\ IsStr(b)
 
+\* ---- alphabets of the generator runs (string tokens carry a label in s; the grammar never looks at it) ----
+StrS1 == Tok("s", "s1", <<"a", "BS", "n", "BS", "u", "0", "0", "e", "9">>, "w")              \* "a\n\u00e9"
+BlkB1 == Tok("b", "b1", <<"LF", "SP", "SP", "a", "LF", "SP", "SP", "SP", "b", "LF">>, "w")    \* -> "a\n b"
+Puncts(ps) == {P(p) : p \in ps}
+Names(ns)  == {Nm(n) : n \in ns}
+AlphaExecSmall == Puncts({"{", "}", "(", ")", ":", "...", "@", "$", "[", "]", "=", "!"}) \cup Names({"a", "on", "query", "fragment"})
+                  \cup {Tok("i", "1", <<>>, "w")}
+AlphaExec == AlphaExecSmall \cup Names({"b", "true", "null"}) \cup {Tok("f", "1.5", <<>>, "w"), Tok("i", "-0", <<>>, "w"), StrS1, BlkB1}
+AlphaSdlSmall == Puncts({"{", "}", "(", ")", ":", "@", "[", "]", "=", "!", "&", "|"})
+                 \cup Names({"a", "schema", "extend", "scalar", "type", "interface", "union", "enum", "input", "directive",
+                            "implements", "repeatable", "on", "query", "mutation", "FIELD", "ENUM"})
+                 \cup {StrS1}
+\* sub-grammar generators (Start = a nonterminal; the driver wraps the fragment into a complete document)
+AlphaVarDefs  == Puncts({"(", ")", "$", ":", "[", "]", "!", "=", "@"}) \cup Names({"a"}) \cup {Tok("i", "1", <<>>, "w")}
+AlphaFieldDef == Puncts({"(", ")", ":", "[", "]", "!", "=", "@"}) \cup Names({"a"}) \cup {Tok("i", "1", <<>>, "w"), StrS1}
+AlphaValue    == Puncts({"[", "]", "{", "}", ":", "$"}) \cup Names({"a", "true", "null"})
+                 \cup {Tok("i", "1", <<>>, "w"), Tok("i", "-0", <<>>, "w"), Tok("f", "1.5", <<>>, "w"), StrS1, BlkB1}
+AlphaSel      == Puncts({"{", "}", "(", ")", ":", "...", "@", "$"}) \cup Names({"a", "b", "on"}) \cup {Tok("i", "1", <<>>, "w")}
+AlphaSdl == AlphaSdlSmall \cup Names({"b", "true"}) \cup {Tok("i", "1", <<>>, "w"), BlkB1}
+
+AlphaOf(id) ==
+  CASE id = "exec" -> AlphaExec [] id = "sdl" -> AlphaSdl [] id = "vardefs" -> AlphaVarDefs [] id = "fielddef" -> AlphaFieldDef
+    [] id = "value" -> AlphaValue [] id = "sel" -> AlphaSel
+RunsM        == {<<"exec", "Doc", 6, 2>>, <<"sdl", "SDoc", 5, 2>>, <<"vardefs", "VarDefsOpt", 8, 0>>, <<"value", "Value", 4, 0>>}
+RunsQuick    == {<<"exec", "Doc", 8, 2>>, <<"sdl", "SDoc", 6, 2>>, <<"vardefs", "VarDefsOpt", 11, 0>>, <<"fielddef", "FieldDef", 9, 0>>,
+                 <<"value", "Value", 5, 0>>, <<"sel", "Selection", 7, 0>>}
+RunsThorough == {<<"exec", "Doc", 9, 2>>, <<"sdl", "SDoc", 7, 2>>, <<"vardefs", "VarDefsOpt", 13, 0>>, <<"fielddef", "FieldDef", 11, 0>>,
+                 <<"value", "Value", 6, 0>>, <<"sel", "Selection", 8, 0>>}
+
 --------------------------------------------------------------------------------
 (* State machine (modes M and G).                                              *)
-CONSTANTS Alphabet, MaxToks, Start, MaxDefs
+CONSTANT Runs        \* the generator runs of this TLC run: a set of <<id, start nonterminal, MaxToks, MaxDefs>> (alphabet: AlphaOf(id))
 \* The generator puts only these names where the grammar allows any Name; keywords are generated in keyword
 \* positions only (the harness respells a / b as keywords and other names, and mode V judges the actual tokens).
 PlainNames == {"a", "b"}
-VARIABLES stack, toks, ast
-gvars == <<stack, toks, ast>>
+VARIABLES stack, toks, ast, run        \* run: the <<id, start, MaxToks, MaxDefs>> this behaviour belongs to
+gvars == <<stack, toks, ast, run>>
 
 \* lower bound of the tokens still needed to empty the stack (prunes prefixes that cannot complete in MaxToks)
 NeedNT(x) ==
@@ -487,16 +520,16 @@ Need(s, i) == IF i > Len(s) THEN 0 ELSE (IF s[i][1] = "N" THEN NeedNT(s[i][2]) E
 
 \* (text, ls are the variables of the lexer automaton of StringLitP; they do not move here)
 Count(seq, Pr(_)) == Cardinality({i \in 1..Len(seq) : Pr(seq[i])})
-GInit == stack = <<NT(Start)>> /\ toks = <<>> /\ ast = <<>> /\ LInit
+GInit == run \in Runs /\ stack = <<NT(run[2])>> /\ toks = <<>> /\ ast = <<>> /\ LIdle
 Step(t) ==
   LET r == TLCEval(Drive(stack, ast, {}, t, {})) IN
-    /\ Len(toks) < MaxToks
+    /\ Len(toks) < run[3]
     /\ r.ok
     /\ (t.k = "n" /\ r.item[1] \in {"n", "ng", "nc"} /\ r.item[2] # "loc") => t.s \in PlainNames
-    /\ Count(r.ast, LAMBDA e : e[1] = "def") <= MaxDefs
-    /\ Len(toks) + 1 + Need(r.stack, 1) <= MaxToks
-    /\ stack' = r.stack /\ ast' = r.ast /\ toks' = Append(toks, t) /\ UNCHANGED lvars
-GNext == \E t \in Alphabet : Step(t)
+    /\ Count(r.ast, LAMBDA e : e[1] = "def") <= run[4]
+    /\ Len(toks) + 1 + Need(r.stack, 1) <= run[3]
+    /\ stack' = r.stack /\ ast' = r.ast /\ toks' = Append(toks, t) /\ UNCHANGED <<lvars, run>>
+GNext == \E t \in AlphaOf(run[1]) : Step(t)
 GSpec == GInit /\ [][GNext]_gvars
 
 Complete == toks # <<>> /\ Drive(stack, ast, {}, EOF, {}).ok
@@ -521,28 +554,15 @@ TreeSize == Len(ast) <= 4 * Len(toks)
 NamesKept ==
   Complete => Count(toks, LAMBDA t : t.k \in {"i", "f", "s", "b"}) = Count(ast, LAMBDA e : e[1] \in {"int", "float", "str", "desc"})
 \* the recogniser (fold from the start) and the generator (step by step) agree, with the same tree
-FoldAgrees == LET r == Parse(toks, Start, {}) IN Complete = (toks # <<>> /\ r.ok) /\ (Complete => r.ast = Drive(stack, ast, {}, EOF, {}).ast)
+FoldAgrees == LET r == Parse(toks, run[2], {}) IN Complete = (toks # <<>> /\ r.ok) /\ (Complete => r.ast = Drive(stack, ast, {}, EOF, {}).ast)
 \* Need is a lower bound: a complete state needs nothing more
 NeedSound == Complete => Need(stack, 1) = 0
 \* the ideal grammar never exercises a deviation
-NoDevUsed == Parse(toks, Start, {}).used = {}
+NoDevUsed == Parse(toks, run[2], {}).used = {}
 \* every definition starts with a "def" entry: the tree of a complete document splits into its definitions
-DefsSplit == Complete => Len(Defs(ast)) >= 1 /\ ast[1][1] = "def"
+DefsSplit == Complete /\ run[2] \in {"Doc", "SDoc"} => Len(Defs(ast)) >= 1 /\ ast[1][1] = "def"
 
 \* mode G: print every complete document once
-GEmit == Complete => PrintT(<<"REPLAY", [i \in 1..Len(toks) |-> toks[i].k \o ":" \o toks[i].s]>>)
+GEmit == Complete => PrintT(<<"REPLAY", run[1], JoinStr([i \in 1..Len(toks) |-> toks[i].k \o ":" \o toks[i].s], 1, "")>>)
 
-\* ---- alphabets of the generator runs (string tokens carry a label in s; the grammar never looks at it) ----
-StrS1 == Tok("s", "s1", <<"a", "BS", "n", "BS", "u", "0", "0", "e", "9">>, "w")              \* "a\n\u00e9"
-BlkB1 == Tok("b", "b1", <<"LF", "SP", "SP", "a", "LF", "SP", "SP", "SP", "b", "LF">>, "w")    \* -> "a\n b"
-Puncts(ps) == {P(p) : p \in ps}
-Names(ns)  == {Nm(n) : n \in ns}
-AlphaExecSmall == Puncts({"{", "}", "(", ")", ":", "...", "@", "$", "[", "]", "=", "!"}) \cup Names({"a", "on", "query", "fragment"})
-                  \cup {Tok("i", "1", <<>>, "w")}
-AlphaExec == AlphaExecSmall \cup Names({"b", "true", "null"}) \cup {Tok("f", "1.5", <<>>, "w"), Tok("i", "-0", <<>>, "w"), StrS1, BlkB1}
-AlphaSdlSmall == Puncts({"{", "}", "(", ")", ":", "@", "[", "]", "=", "!", "&", "|"})
-                 \cup Names({"a", "schema", "extend", "scalar", "type", "interface", "union", "enum", "input", "directive",
-                            "implements", "repeatable", "on", "query", "mutation", "FIELD", "ENUM"})
-                 \cup {StrS1}
-AlphaSdl == AlphaSdlSmall \cup Names({"b", "true"}) \cup {Tok("i", "1", <<>>, "w"), BlkB1}
 =============================================================================
